@@ -13,6 +13,19 @@ ROOT = os.path.dirname(os.path.dirname(os.path.abspath(__file__)))
 REPO_SRC = os.environ.get('VERIF_REPO_SRC', '/repo/src')
 
 
+def _through_repo(e):
+    root = os.path.realpath(REPO_SRC)
+    frames = []
+    seen = set()
+    while e is not None and id(e) not in seen:
+        seen.add(id(e))
+        for fs in traceback.extract_tb(e.__traceback__):
+            if os.path.realpath(fs.filename).startswith(root + os.sep):
+                frames.append(f'{os.path.relpath(os.path.realpath(fs.filename), root)}:{fs.name}')
+        e = e.__cause__ or e.__context__
+    return {'through_repo': bool(frames), 'repo_frames': frames[-4:]}
+
+
 def main():
     binder_name, job_path, out_path = sys.argv[1:4]
     with open(job_path) as f:
@@ -26,8 +39,11 @@ def main():
     try:
         binder = importlib.import_module('mbt.bind.' + binder_name)
         out = binder.run_job(job)
-    except BaseException:
-        out = {'machinery_error': traceback.format_exc()}
+    except BaseException as e:
+        # An exception nobody anticipated.  If it was raised by (or passed through) the code under test it is evidence
+        # about that code - the check reports it as a violation; otherwise it is a failure of the machinery itself.
+        out = {'machinery_error': traceback.format_exc(), 'exc_type': type(e).__name__}
+        out.update(_through_repo(e))
         status = 2
     tmp = out_path + '.tmp'
     with open(tmp, 'w') as f:
